@@ -305,7 +305,7 @@ impl<'a> Gen<'a> {
 
     pub fn stmt(&mut self, depth: usize) {
         let d = depth.saturating_sub(1);
-        let choice = self.rng.below(40);
+        let choice = self.rng.below(41);
         match choice {
             0..=5 => {
                 // local declaration
@@ -582,6 +582,28 @@ impl<'a> Gen<'a> {
                         let n1 = self.fresh(Ty::Any);
                         let n2 = self.fresh(Ty::Num);
                         self.line(&format!("local {}, {} = nil, 3", n1, n2));
+                    }
+                }
+            }
+            35 if self.f.foldable => {
+                // adversarial shapes: a known-true guard in front of a multi-value call, a user
+                // variable named `_`, an unused local initialised by a field read, duplicate names
+                match self.rng.below(5) {
+                    0 => self.line("ext_p(true and select(1, 7, 8))"),
+                    1 => self.line("ext_p((1 < 2) and select(2, \"a\", \"b\", \"c\"), \"end\")"),
+                    2 => {
+                        self.line("local _ = 5");
+                        self.line("local holder = { k = 1 }");
+                        self.line("local unused3 = holder.k");
+                        self.line("ext_p(_)");
+                    }
+                    3 => {
+                        self.line("local dup, dup = nil, 1");
+                        self.line("ext_p(dup)");
+                    }
+                    _ => {
+                        self.line("local tt = { field = 1 }");
+                        self.line("ext_p(tt[{ ext_n() } and \"field\"])");
                     }
                 }
             }
